@@ -6,7 +6,7 @@
    node where it already is succeeds and leaves the arena EQUAL; append_value(v) = new_node(v)
    followed by append, as arena equality.  C03_*_means spell out the list surgery. *)
 From IT Require Import Props.
-From IT.proofs Require Import Reach ForestFacts.
+From IT.proofs Require Import StepMonitor Reach ForestFacts.
 
 Theorem C03_insert : forall ops k chk x c F, valid_hist false init ops -> let w := reach ops in
   Repr (ar w) F -> usable (ar w) x -> usable (ar w) c -> ~ impossible (ar w) F k x c ->
@@ -61,7 +61,16 @@ Qed.
 Theorem C03_detach_means : forall x F, In [x] (tops (f_detach x F)) /\ (forall p, kidsf (f_detach x F) p = remove_id x (kidsf F p)).
 Proof. intros; split; [apply f_detach_root | intros; apply f_detach_kids]. Qed.
 
+(* the executable step checker that the correspondence run applies to consecutive states observed on
+   the implementation (Monitor.check_step: documented forest operation, outcome vs impossibility,
+   atomicity, frame clauses) is silent on EVERY valid step of the model from every reachable world:
+   it cannot raise an alarm as long as the implementation behaves like the model *)
+Theorem C03_step_monitor_silent : forall ops o, valid_hist false init ops -> valid_op (ar (reach ops)) o ->
+  check_step (ar (reach ops)) o (snd (step false (reach ops) o)) (ar (fst (step false (reach ops) o))) = [].
+Proof. intros ops o H Hv. exact (check_step_silent (reach ops) o (reach_WF ops H) Hv). Qed.
+
 Print Assumptions C03_insert.
+Print Assumptions C03_step_monitor_silent.
 Print Assumptions C03_detach.
 Print Assumptions C03_append_value.
 Print Assumptions C03_append_value_eq.
